@@ -31,7 +31,7 @@ waiting activity simply has no accepted event of its own.
 **Measure.**  `mu s` (`Lemmas/StopT.lean`) strictly decreases with every moving event, in every
 state (reachable or not) of both code variants; an `inv` adds at most `invCost = 10 n + 21`
 (`n` = number of activities), the other environment events nothing.  Hence every accepted log
-with `N` invoked operations contains at most `(10 n + 21) N` moving events (`C14t_bounded`), and a
+with `N` invoked operations contains at most `n + (10 n + 21) N` moving events (`C14t_bounded`), and a
 run without new invocations at most `mu s` (`C14t_bounded_from`): every maximal run of a finite
 program is finite modulo the stutter.
 
@@ -161,7 +161,7 @@ theorem C14t_unrestricted_measure_impossible :
 
 /-- **Bounded runs (termination modulo the stutter).**  Every accepted log of the model — any
     number of threads, callbacks, nesting depth, any interleaving, pinned or repaired code —
-    contains at most `(10 n + 21) · N` moving events, `N` = number of operations invoked in the
+    contains at most `n + (10 n + 21) · N` moving events (`mu` of the initial state is `n`: `idle` ranks 1 so that `done` decreases too), `N` = number of operations invoked in the
     log (by threads or by callback scripts).  For a finite program `N` is at most the number of
     operations in its thread lists and callback scripts (a script runs at most once:
     `C14_at_most_once`). -/
